@@ -8,7 +8,8 @@
   correspondence stream `span-hull` checks the assumption against lark's actual metas on every run.
   The synthetic _INDENT/_DEDENT tokens of `PythonIndenter` borrow the span of the preceding _NEWLINE token, so they never
   change a hull; they are left out of the token sequences considered here. _DEDENT tokens emitted at end of input carry
-  no position at all — trees that end with one are outside this model (see proposed/C16-eof-dedent-span.md).
+  no position at all — trees that end with one are outside this model; since fix 46d0462 (the parser completes the last
+  line) they no longer occur, and the search reports any span with a `None` position as a failure.
 -/
 import Tranp.Str
 
